@@ -1,24 +1,682 @@
 package main
 
+// Map-iteration sites (tie (a) of C14, DESIGN §2.3).
+//
+// The extractor is syntactic (go/parser + go/ast; a go/types pass with the source importer costs
+// minutes on this tree) but resolves types as far as declarations allow:
+//
+//   * every package of the repository is parsed once; per package we collect the named map types
+//     (`type X map[..]`, `type Y X`, `type Z = pkg.X`, to a fixpoint, across packages through the
+//     file's imports), every struct's fields with their declared types, every function/method with
+//     its first result type;
+//   * inside a function, the declared types of the receiver, parameters, named results, `var`
+//     declarations and `x := make(T)/T{..}/f(..)/y.M(..)/maps.Clone(..)` locals are tracked, and the
+//     variables bound by `for k, v := range m` get the map's key/value types;
+//   * the operand of a `range` is resolved through identifiers and selector chains; when the chain
+//     resolves, the answer is exact (kind "map"); when it does not, the last selector is compared with
+//     the set of map-typed field names of the whole repository (kind "map-by-name": may be a false
+//     positive, to be classified `not-a-map` by hand);
+//   * iterator methods: every function whose result is iter.Seq/iter.Seq2 and whose body ranges over
+//     a map, calls maps.All/Keys/Values or returns another such iterator (fixpoint) is map-backed;
+//     `range x.M()` for a map-backed iterator name M is a site (kind "iter-method");
+//     `range maps.Keys/Values/All(..)` is kind "maps-iter";
+//   * iteration that is not a `range` statement: `maps.Keys/Values/All(..)` used as a value
+//     (kind "maps-call", e.g. slices.Sorted(maps.Keys(m))), calls of callback iterators whose body
+//     ranges over a map (kind "iterate-callback", e.g. Set.Iterate) and calls of methods returning a
+//     slice in map order (kind "map-order-slice", e.g. Set.Slice).
+//
+// Repeated sites with the same (file, func, expr) get a " #n" suffix so that each has its own class.
+
 import (
 	"go/ast"
+	"os"
+	"path/filepath"
+	"sort"
+	"strconv"
 	"strings"
 )
 
-// mapRangeFacts: every `range` statement in non-test files of the anchored packages whose operand
-// is syntactically a map-like iteration (map-typed field/ident by naming convention is not decidable
-// without types, so we record: `maps.Keys/Values/All(..)`, `.All()`, `.Keys()`, `.Values()` iterator
-// calls and ranges over identifiers/selectors declared as maps in the same file).
-func mapRangeFacts() {
-	dirs := []string{".", "internal/eval", "internal/json", "internal/parser", "types", "internal/mapset", "x/exp/batch", "x/exp/schema/internal/parser", "x/exp/schema/internal/json", "x/exp/schema/resolved", "x/exp/schema/validate", "x/exp/schema", "x/exp/types"}
-	for _, d := range dirs {
-		files, _ := listGo(d)
-		for _, rel := range files {
-			f := parseFile(rel)
-			if f == nil {
+const modulePath = "github.com/cedar-policy/cedar-go"
+
+// anchored packages: sites are reported for these directories
+var mapRangeDirs = []string{".", "ast", "internal/eval", "internal/json", "internal/parser", "internal/mapset", "types",
+	"x/exp/ast", "x/exp/batch", "x/exp/eval", "x/exp/schema", "x/exp/schema/ast", "x/exp/schema/internal/parser", "x/exp/schema/internal/json",
+	"x/exp/schema/resolved", "x/exp/schema/validate", "x/exp/types"}
+
+type tyRef struct {
+	e   ast.Expr
+	pkg *pkgInfo
+	f   *ast.File
+}
+
+type pkgInfo struct {
+	dir     string
+	files   map[string]*ast.File     // rel path -> file
+	types   map[string]tyRef         // type name -> declared underlying/aliased type expression
+	funcs   map[string]*ast.FuncDecl // top-level functions
+	fileOf  map[*ast.FuncDecl]*ast.File
+	methods []*ast.FuncDecl
+}
+
+var pkgs = map[string]*pkgInfo{}
+
+// global name-based tables (fallbacks)
+var mapFieldNames = map[string]bool{}      // field names declared with a map type somewhere
+var iterNames = map[string]bool{}          // functions/methods returning iter.Seq* that are map-backed
+var callbackIterNames = map[string]bool{}  // methods taking a func and ranging over a map (Iterate)
+var mapOrderSliceNames = map[string]bool{} // methods returning a slice collected from a map
+var methodResult = map[string][]tyRef{}    // method name -> first result types over all receivers
+
+func loadPackages() {
+	_ = filepath.WalkDir(repo, func(path string, d os.DirEntry, err error) error {
+		if err != nil {
+			return nil
+		}
+		if d.IsDir() {
+			n := d.Name()
+			if n == "testdata" || n == "corpus" || (strings.HasPrefix(n, ".") && path != repo) || n == "verifhooks" {
+				return filepath.SkipDir
+			}
+			rel, _ := filepath.Rel(repo, path)
+			files, _ := listGo(rel)
+			if len(files) == 0 {
+				return nil
+			}
+			p := &pkgInfo{dir: rel, files: map[string]*ast.File{}, types: map[string]tyRef{}, funcs: map[string]*ast.FuncDecl{}, fileOf: map[*ast.FuncDecl]*ast.File{}}
+			for _, fr := range files {
+				if strings.HasPrefix(filepath.Base(fr), "hooks_") {
+					continue
+				}
+				f := parseFile(fr)
+				if f == nil {
+					continue
+				}
+				p.files[fr] = f
+				for _, decl := range f.Decls {
+					switch v := decl.(type) {
+					case *ast.GenDecl:
+						for _, s := range v.Specs {
+							if ts, ok := s.(*ast.TypeSpec); ok {
+								p.types[ts.Name.Name] = tyRef{ts.Type, p, f}
+							}
+						}
+					case *ast.FuncDecl:
+						p.fileOf[v] = f
+						if v.Recv == nil {
+							p.funcs[v.Name.Name] = v
+						} else {
+							p.methods = append(p.methods, v)
+						}
+					}
+				}
+			}
+			pkgs[rel] = p
+		}
+		return nil
+	})
+}
+
+func importDir(f *ast.File, alias string) (string, bool) {
+	for _, im := range f.Imports {
+		path, err := strconv.Unquote(im.Path.Value)
+		if err != nil {
+			continue
+		}
+		name := filepath.Base(path)
+		if im.Name != nil {
+			name = im.Name.Name
+		}
+		if name != alias {
+			continue
+		}
+		if path == modulePath {
+			return ".", true
+		}
+		if strings.HasPrefix(path, modulePath+"/") {
+			return strings.TrimPrefix(path, modulePath+"/"), true
+		}
+		return "", false
+	}
+	return "", false
+}
+
+// deref strips pointers, parentheses and generic instantiations.
+func deref(e ast.Expr) ast.Expr {
+	for {
+		switch v := e.(type) {
+		case *ast.StarExpr:
+			e = v.X
+		case *ast.ParenExpr:
+			e = v.X
+		case *ast.IndexExpr:
+			e = v.X
+		case *ast.IndexListExpr:
+			e = v.X
+		default:
+			return e
+		}
+	}
+}
+
+// lookupNamed resolves a (possibly qualified) type name to its declaration.
+func lookupNamed(t tyRef) (tyRef, bool) {
+	switch v := deref(t.e).(type) {
+	case *ast.Ident:
+		if t.pkg == nil {
+			return tyRef{}, false
+		}
+		r, ok := t.pkg.types[v.Name]
+		return r, ok
+	case *ast.SelectorExpr:
+		if x, ok := v.X.(*ast.Ident); ok && t.f != nil {
+			if dir, ok := importDir(t.f, x.Name); ok {
+				if p := pkgs[dir]; p != nil {
+					r, ok := p.types[v.Sel.Name]
+					return r, ok
+				}
+			}
+		}
+	}
+	return tyRef{}, false
+}
+
+// underlying follows named types to a map/struct/other literal type (bounded depth).
+func underlying(t tyRef) tyRef {
+	for i := 0; i < 8; i++ {
+		if t.e == nil {
+			return t
+		}
+		switch deref(t.e).(type) {
+		case *ast.Ident, *ast.SelectorExpr:
+			n, ok := lookupNamed(t)
+			if !ok {
+				return t
+			}
+			t = n
+		default:
+			return tyRef{deref(t.e), t.pkg, t.f}
+		}
+	}
+	return t
+}
+
+func isMapRef(t tyRef) bool {
+	if t.e == nil {
+		return false
+	}
+	_, ok := underlying(t).e.(*ast.MapType)
+	return ok
+}
+
+func isIterSeqType(e ast.Expr) bool {
+	if e == nil {
+		return false
+	}
+	s := exprString(deref(e))
+	return s == "iter.Seq" || s == "iter.Seq2"
+}
+
+func isSliceType(e ast.Expr) bool {
+	a, ok := e.(*ast.ArrayType)
+	return ok && a.Len == nil
+}
+
+// fieldType finds field `name` in the struct type t (through named types and pointers, one level of embedding).
+func fieldType(t tyRef, name string) (tyRef, bool) {
+	u := underlying(t)
+	st, ok := u.e.(*ast.StructType)
+	if !ok || st.Fields == nil {
+		return tyRef{}, false
+	}
+	for _, fl := range st.Fields.List {
+		for _, n := range fl.Names {
+			if n.Name == name {
+				return tyRef{fl.Type, u.pkg, u.f}, true
+			}
+		}
+	}
+	for _, fl := range st.Fields.List {
+		if len(fl.Names) == 0 { // embedded
+			if r, ok := fieldType(tyRef{fl.Type, u.pkg, u.f}, name); ok {
+				return r, true
+			}
+		}
+	}
+	return tyRef{}, false
+}
+
+func firstResult(fd *ast.FuncDecl) ast.Expr {
+	if fd.Type.Results == nil || len(fd.Type.Results.List) == 0 {
+		return nil
+	}
+	return fd.Type.Results.List[0].Type
+}
+
+// scope: declared types of the identifiers visible in one function.
+type scope struct {
+	pkg      *pkgInfo
+	file     *ast.File
+	vars     map[string]tyRef
+	caseBind map[*ast.CaseClause]string // type-switch clauses -> the identifier they bind
+}
+
+func (s *scope) ref(e ast.Expr) tyRef { return tyRef{e, s.pkg, s.file} }
+
+// typeOf resolves the static type of an expression as far as declarations allow.
+func (s *scope) typeOf(e ast.Expr) (tyRef, bool) {
+	switch v := e.(type) {
+	case *ast.ParenExpr:
+		return s.typeOf(v.X)
+	case *ast.StarExpr:
+		return s.typeOf(v.X)
+	case *ast.Ident:
+		t, ok := s.vars[v.Name]
+		return t, ok && t.e != nil
+	case *ast.SelectorExpr:
+		if x, ok := v.X.(*ast.Ident); ok {
+			if _, isVar := s.vars[x.Name]; !isVar {
+				if _, isPkg := importDir(s.file, x.Name); isPkg {
+					return tyRef{}, false // package-level variable of another package
+				}
+			}
+		}
+		xt, ok := s.typeOf(v.X)
+		if !ok {
+			return tyRef{}, false
+		}
+		return fieldType(xt, v.Sel.Name)
+	case *ast.CompositeLit:
+		if v.Type != nil {
+			return s.ref(v.Type), true
+		}
+	case *ast.UnaryExpr:
+		if cl, ok := v.X.(*ast.CompositeLit); ok && cl.Type != nil {
+			return s.ref(cl.Type), true
+		}
+	case *ast.IndexExpr: // m[k] for a map with a resolvable value type
+		if xt, ok := s.typeOf(v.X); ok {
+			if mt, ok := underlying(xt).e.(*ast.MapType); ok {
+				u := underlying(xt)
+				return tyRef{mt.Value, u.pkg, u.f}, true
+			}
+		}
+	case *ast.CallExpr:
+		switch fn := v.Fun.(type) {
+		case *ast.Ident:
+			if (fn.Name == "make" || fn.Name == "new") && len(v.Args) > 0 {
+				return s.ref(v.Args[0]), true
+			}
+			if fd := s.pkg.funcs[fn.Name]; fd != nil {
+				if r := firstResult(fd); r != nil {
+					return tyRef{r, s.pkg, s.pkg.fileOf[fd]}, true
+				}
+			}
+			if _, ok := s.pkg.types[fn.Name]; ok && len(v.Args) == 1 { // conversion T(x)
+				return s.ref(fn), true
+			}
+		case *ast.SelectorExpr:
+			if x, ok := fn.X.(*ast.Ident); ok {
+				if _, isVar := s.vars[x.Name]; !isVar {
+					if x.Name == "maps" && (fn.Sel.Name == "Clone") && len(v.Args) == 1 {
+						return s.typeOf(v.Args[0])
+					}
+					if dir, ok := importDir(s.file, x.Name); ok {
+						if p := pkgs[dir]; p != nil {
+							if fd := p.funcs[fn.Sel.Name]; fd != nil {
+								if r := firstResult(fd); r != nil {
+									return tyRef{r, p, p.fileOf[fd]}, true
+								}
+							}
+							if _, ok := p.types[fn.Sel.Name]; ok && len(v.Args) == 1 {
+								return s.ref(fn), true
+							}
+						}
+						return tyRef{}, false
+					}
+				}
+			}
+			// method call: unique result type over all methods of that name
+			rs := methodResult[fn.Sel.Name]
+			if len(rs) > 0 {
+				allMap, allSame := true, true
+				for _, r := range rs {
+					if !isMapRef(r) {
+						allMap = false
+					}
+					if exprString(r.e) != exprString(rs[0].e) {
+						allSame = false
+					}
+				}
+				if allMap || allSame {
+					return rs[0], true
+				}
+			}
+		case *ast.IndexExpr: // generic conversion MapSet[T](h)
+			if len(v.Args) == 1 {
+				return s.ref(fn), true
+			}
+		}
+	}
+	return tyRef{}, false
+}
+
+func newScope(p *pkgInfo, f *ast.File, fd *ast.FuncDecl) *scope {
+	s := &scope{pkg: p, file: f, vars: map[string]tyRef{}, caseBind: map[*ast.CaseClause]string{}}
+	addFields := func(fl *ast.FieldList) {
+		if fl == nil {
+			return
+		}
+		for _, fld := range fl.List {
+			for _, n := range fld.Names {
+				s.vars[n.Name] = s.ref(fld.Type)
+			}
+		}
+	}
+	addFields(fd.Recv)
+	addFields(fd.Type.Params)
+	addFields(fd.Type.Results)
+	return s
+}
+
+// declare walks the body in source order recording local variable types (no block scoping: a
+// shadowing redeclaration with a different type overwrites, which can only turn an exact answer
+// into the name-based fallback or vice versa for the same name).
+func (s *scope) declare(n ast.Node) {
+	switch v := n.(type) {
+	case *ast.TypeSwitchStmt: // switch t := x.(type): inside a single-type clause t has that type
+		if as, ok := v.Assign.(*ast.AssignStmt); ok && len(as.Lhs) == 1 {
+			if id, ok := as.Lhs[0].(*ast.Ident); ok && v.Body != nil {
+				for _, st := range v.Body.List {
+					if cc, ok := st.(*ast.CaseClause); ok {
+						s.caseBind[cc] = id.Name
+					}
+				}
+			}
+		}
+	case *ast.CaseClause:
+		if name, ok := s.caseBind[v]; ok {
+			if len(v.List) == 1 {
+				s.vars[name] = s.ref(v.List[0])
+			} else {
+				s.vars[name] = tyRef{}
+			}
+		}
+	case *ast.FuncLit:
+		if v.Type.Params != nil {
+			for _, fld := range v.Type.Params.List {
+				for _, nm := range fld.Names {
+					s.vars[nm.Name] = s.ref(fld.Type)
+				}
+			}
+		}
+	case *ast.DeclStmt:
+		if gd, ok := v.Decl.(*ast.GenDecl); ok {
+			for _, sp := range gd.Specs {
+				vs, ok := sp.(*ast.ValueSpec)
+				if !ok {
+					continue
+				}
+				for i, nm := range vs.Names {
+					if vs.Type != nil {
+						s.vars[nm.Name] = s.ref(vs.Type)
+					} else if i < len(vs.Values) {
+						if t, ok := s.typeOf(vs.Values[i]); ok {
+							s.vars[nm.Name] = t
+						} else {
+							s.vars[nm.Name] = tyRef{}
+						}
+					}
+				}
+			}
+		}
+	case *ast.AssignStmt:
+		if v.Tok.String() != ":=" {
+			return
+		}
+		for i, l := range v.Lhs {
+			id, ok := l.(*ast.Ident)
+			if !ok || id.Name == "_" {
 				continue
 			}
-			mapNames := declaredMaps(f)
+			if len(v.Lhs) == len(v.Rhs) {
+				if t, ok := s.typeOf(v.Rhs[i]); ok {
+					s.vars[id.Name] = t
+					continue
+				}
+			} else if i == 0 && len(v.Rhs) == 1 { // v, ok := m[k] / f()
+				if t, ok := s.typeOf(v.Rhs[0]); ok {
+					s.vars[id.Name] = t
+					continue
+				}
+			}
+			s.vars[id.Name] = tyRef{}
+		}
+	case *ast.RangeStmt:
+		if v.Tok.String() != ":=" {
+			return
+		}
+		xt, ok := s.typeOf(v.X)
+		var kt, vt tyRef
+		if ok {
+			u := underlying(xt)
+			switch m := u.e.(type) {
+			case *ast.MapType:
+				kt, vt = tyRef{m.Key, u.pkg, u.f}, tyRef{m.Value, u.pkg, u.f}
+			case *ast.ArrayType:
+				vt = tyRef{m.Elt, u.pkg, u.f}
+			}
+		}
+		if id, ok := v.Key.(*ast.Ident); ok && id.Name != "_" {
+			s.vars[id.Name] = kt
+		}
+		if id, ok := v.Value.(*ast.Ident); ok && id.Name != "_" {
+			s.vars[id.Name] = vt
+		}
+	}
+}
+
+func isMapsIterCall(e ast.Expr) bool {
+	c, ok := e.(*ast.CallExpr)
+	if !ok {
+		return false
+	}
+	s := exprString(c.Fun)
+	return s == "maps.Keys" || s == "maps.Values" || s == "maps.All"
+}
+
+// rangeKind classifies the operand of a range statement; "" = not a map iteration.
+func (s *scope) rangeKind(x ast.Expr) string {
+	if isMapsIterCall(x) {
+		return "maps-iter"
+	}
+	if c, ok := x.(*ast.CallExpr); ok {
+		if t, ok := s.typeOf(x); ok {
+			if isMapRef(t) {
+				return "map"
+			}
+			if isIterSeqType(t.e) {
+				if sel, ok := c.Fun.(*ast.SelectorExpr); ok && !iterNames[sel.Sel.Name] {
+					return ""
+				}
+				return "iter-method"
+			}
+		}
+		switch fn := c.Fun.(type) {
+		case *ast.SelectorExpr:
+			if iterNames[fn.Sel.Name] {
+				return "iter-method"
+			}
+		case *ast.Ident:
+			if iterNames[fn.Name] {
+				return "iter-method"
+			}
+		}
+		return ""
+	}
+	if t, ok := s.typeOf(x); ok {
+		if isMapRef(t) {
+			return "map"
+		}
+		if isIterSeqType(underlying(t).e) {
+			return "iter-value"
+		}
+		return ""
+	}
+	switch v := x.(type) {
+	case *ast.SelectorExpr:
+		if mapFieldNames[v.Sel.Name] {
+			return "map-by-name"
+		}
+	}
+	return ""
+}
+
+// bodyIteratesMap: does the function body range over a map / call maps.* / a map-backed iterator?
+func bodyIteratesMap(p *pkgInfo, fd *ast.FuncDecl) bool {
+	s := newScope(p, p.fileOf[fd], fd)
+	found := false
+	ast.Inspect(fd.Body, func(n ast.Node) bool {
+		if n == nil || found {
+			return false
+		}
+		s.declare(n)
+		switch v := n.(type) {
+		case *ast.RangeStmt:
+			if k := s.rangeKind(v.X); k != "" {
+				found = true
+			}
+		case *ast.CallExpr:
+			if isMapsIterCall(v) {
+				found = true
+			}
+			if sel, ok := v.Fun.(*ast.SelectorExpr); ok && (iterNames[sel.Sel.Name] || mapOrderSliceNames[sel.Sel.Name] || callbackIterNames[sel.Sel.Name]) {
+				found = true
+			}
+		}
+		return true
+	})
+	return found
+}
+
+func hasFuncParam(fd *ast.FuncDecl) bool {
+	if fd.Type.Params == nil {
+		return false
+	}
+	for _, p := range fd.Type.Params.List {
+		t := p.Type
+		if _, ok := t.(*ast.FuncType); ok {
+			return true
+		}
+		if id, ok := t.(*ast.Ident); ok && strings.HasSuffix(id.Name, "Iterator") {
+			return true
+		}
+	}
+	return false
+}
+
+func buildGlobalTables() {
+	for _, p := range pkgs {
+		for _, tr := range p.types {
+			if st, ok := tr.e.(*ast.StructType); ok && st.Fields != nil {
+				for _, fl := range st.Fields.List {
+					if isMapRef(tyRef{fl.Type, tr.pkg, tr.f}) {
+						for _, n := range fl.Names {
+							mapFieldNames[n.Name] = true
+						}
+					}
+				}
+			}
+		}
+		for _, m := range p.methods {
+			if r := firstResult(m); r != nil {
+				methodResult[m.Name.Name] = append(methodResult[m.Name.Name], tyRef{r, p, p.fileOf[m]})
+			}
+		}
+	}
+	// anonymous struct fields / local struct types inside functions
+	for _, p := range pkgs {
+		for _, f := range p.files {
+			ast.Inspect(f, func(n ast.Node) bool {
+				if st, ok := n.(*ast.StructType); ok && st.Fields != nil {
+					for _, fl := range st.Fields.List {
+						if isMapRef(tyRef{fl.Type, p, f}) {
+							for _, nm := range fl.Names {
+								mapFieldNames[nm.Name] = true
+							}
+						}
+					}
+				}
+				return true
+			})
+		}
+	}
+	// iterator / callback / slice methods: fixpoint over "body iterates a map"
+	for changed := true; changed; {
+		changed = false
+		for _, p := range pkgs {
+			var all []*ast.FuncDecl
+			all = append(all, p.methods...)
+			for _, fd := range p.funcs {
+				all = append(all, fd)
+			}
+			for _, fd := range all {
+				if fd.Body == nil {
+					continue
+				}
+				r := firstResult(fd)
+				name := fd.Name.Name
+				switch {
+				case isIterSeqType(r) && !iterNames[name]:
+					if bodyIteratesMap(p, fd) {
+						iterNames[name] = true
+						changed = true
+					}
+				case r != nil && isSliceType(r) && exprString(r.(*ast.ArrayType).Elt) != "byte" && fd.Recv != nil && (fd.Type.Params == nil || len(fd.Type.Params.List) == 0) && !mapOrderSliceNames[name]:
+					// a nullary method returning a slice whose body only collects a map
+					if len(fd.Body.List) <= 3 && bodyIteratesMap(p, fd) && !containsSort(fd.Body) {
+						mapOrderSliceNames[name] = true
+						changed = true
+					}
+				case fd.Recv != nil && r == nil && hasFuncParam(fd) && !callbackIterNames[name]:
+					if len(fd.Body.List) <= 2 && bodyIteratesMap(p, fd) {
+						callbackIterNames[name] = true
+						changed = true
+					}
+				}
+			}
+		}
+	}
+}
+
+func containsSort(n ast.Node) bool {
+	found := false
+	ast.Inspect(n, func(n ast.Node) bool {
+		if c, ok := n.(*ast.CallExpr); ok {
+			s := exprString(c.Fun)
+			if strings.HasPrefix(s, "sort.") || strings.HasPrefix(s, "slices.Sort") {
+				found = true
+			}
+		}
+		return !found
+	})
+	return found
+}
+
+func mapRangeFacts() {
+	loadPackages()
+	buildGlobalTables()
+	for _, d := range mapRangeDirs {
+		p := pkgs[filepath.Clean(d)]
+		if p == nil {
+			continue
+		}
+		var rels []string
+		for rel := range p.files {
+			rels = append(rels, rel)
+		}
+		sort.Strings(rels)
+		for _, rel := range rels {
+			f := p.files[rel]
 			for _, decl := range f.Decls {
 				fd, ok := decl.(*ast.FuncDecl)
 				if !ok || fd.Body == nil {
@@ -28,125 +686,46 @@ func mapRangeFacts() {
 				if fd.Recv != nil && len(fd.Recv.List) > 0 {
 					fn = exprString(fd.Recv.List[0].Type) + "." + fn
 				}
-				local := localMaps(fd)
+				seen := map[string]int{}
+				emit := func(x ast.Expr, kind string) {
+					e := exprString(x)
+					seen[e]++
+					if seen[e] > 1 {
+						e = e + " #" + strconv.Itoa(seen[e])
+					}
+					facts.MapRanges = append(facts.MapRanges, mapRange{File: rel, Func: fn, Expr: e, Kind: kind})
+				}
+				s := newScope(p, f, fd)
+				rangeOperands := map[ast.Expr]bool{}
 				ast.Inspect(fd.Body, func(n ast.Node) bool {
-					rs, ok := n.(*ast.RangeStmt)
-					if !ok {
-						return true
+					if n == nil {
+						return false
 					}
-					x := exprString(rs.X)
-					kind := ""
-					switch {
-					case strings.HasPrefix(x, "maps.Keys(") || strings.HasPrefix(x, "maps.Values(") || strings.HasPrefix(x, "maps.All("):
-						kind = "maps-iter"
-					case strings.HasSuffix(x, ".All()") || strings.HasSuffix(x, ".Keys()") || strings.HasSuffix(x, ".Values()"):
-						kind = "iter-method"
-					case mapNames[lastSel(x)] || local[x]:
-						kind = "map"
-					}
-					if kind != "" {
-						facts.MapRanges = append(facts.MapRanges, mapRange{File: rel, Func: fn, Expr: x, Kind: kind})
+					s.declare(n)
+					switch v := n.(type) {
+					case *ast.RangeStmt:
+						rangeOperands[v.X] = true
+						if k := s.rangeKind(v.X); k != "" {
+							emit(v.X, k)
+						}
+					case *ast.CallExpr:
+						if rangeOperands[v] {
+							return true
+						}
+						if isMapsIterCall(v) {
+							emit(v, "maps-call")
+						} else if sel, ok := v.Fun.(*ast.SelectorExpr); ok {
+							switch {
+							case callbackIterNames[sel.Sel.Name]:
+								emit(v.Fun, "iterate-callback")
+							case mapOrderSliceNames[sel.Sel.Name] && len(v.Args) == 0:
+								emit(v, "map-order-slice")
+							}
+						}
 					}
 					return true
 				})
 			}
 		}
 	}
-}
-
-func lastSel(x string) string {
-	if i := strings.LastIndex(x, "."); i >= 0 {
-		return x[i+1:]
-	}
-	return x
-}
-
-// declaredMaps: struct fields and package vars whose declared type is a map (by syntax).
-func declaredMaps(f *ast.File) map[string]bool {
-	m := map[string]bool{}
-	ast.Inspect(f, func(n ast.Node) bool {
-		switch v := n.(type) {
-		case *ast.Field:
-			if isMapType(v.Type) {
-				for _, n := range v.Names {
-					m[n.Name] = true
-				}
-			}
-		case *ast.ValueSpec:
-			if v.Type != nil && isMapType(v.Type) {
-				for _, n := range v.Names {
-					m[n.Name] = true
-				}
-			}
-			for i, val := range v.Values {
-				if cl, ok := val.(*ast.CompositeLit); ok && isMapType(cl.Type) && i < len(v.Names) {
-					m[v.Names[i].Name] = true
-				}
-			}
-		}
-		return true
-	})
-	return m
-}
-
-var mapTypeNames = map[string]bool{"RecordMap": true, "types.RecordMap": true, "EntityMap": true, "types.EntityMap": true, "PolicyMap": true, "Annotations": true, "types.Annotations": true}
-
-func isMapType(e ast.Expr) bool {
-	if e == nil {
-		return false
-	}
-	if _, ok := e.(*ast.MapType); ok {
-		return true
-	}
-	return mapTypeNames[exprString(e)]
-}
-
-// localMaps: parameters/locals of the function declared with a map type or made with make(map..)/map literal.
-func localMaps(fd *ast.FuncDecl) map[string]bool {
-	m := map[string]bool{}
-	if fd.Type.Params != nil {
-		for _, p := range fd.Type.Params.List {
-			if isMapType(p.Type) {
-				for _, n := range p.Names {
-					m[n.Name] = true
-				}
-			}
-		}
-	}
-	if fd.Recv != nil {
-		for _, p := range fd.Recv.List {
-			if isMapType(p.Type) {
-				for _, n := range p.Names {
-					m[n.Name] = true
-				}
-			}
-		}
-	}
-	ast.Inspect(fd.Body, func(n ast.Node) bool {
-		as, ok := n.(*ast.AssignStmt)
-		if !ok {
-			return true
-		}
-		for i, r := range as.Rhs {
-			if i >= len(as.Lhs) {
-				break
-			}
-			id, ok := as.Lhs[i].(*ast.Ident)
-			if !ok {
-				continue
-			}
-			switch v := r.(type) {
-			case *ast.CallExpr:
-				if fn, ok := v.Fun.(*ast.Ident); ok && fn.Name == "make" && len(v.Args) > 0 && isMapType(v.Args[0]) {
-					m[id.Name] = true
-				}
-			case *ast.CompositeLit:
-				if isMapType(v.Type) {
-					m[id.Name] = true
-				}
-			}
-		}
-		return true
-	})
-	return m
 }
